@@ -60,6 +60,12 @@ def impl(case):
     except Exception as e:  # noqa
         out["result_edits_are_private"] = {"exc": type(e).__name__, "msg": str(e)[:200]}
     machine("trim_vals", lambda: mk().trim_vals)
+
+    def trim_after_total():
+        m2 = mk()
+        m2.total_weight(); m2.backward; m2.forward      # memoised weights first, then the purely structural trim
+        return m2.trim
+    machine("trim_after_total", trim_after_total)
     machine("push_trim", lambda: mk().push.trim)
     if case.get("det"):
         machine("determinize", lambda: mk().determinize)
@@ -435,7 +441,7 @@ def run(ctx):
         c["id"] = i
     impl_res = ctx["run_impl"](cases, hashseeds, 60)
     base = oracles.pn_eval(ctx, [(c["wfsa"], "Float", c["xs"]) for c in cases])
-    names = ["push", "trim", "trim_vals", "push_trim", "determinize", "min_det"]
+    names = ["push", "trim", "trim_vals", "trim_after_total", "push_trim", "determinize", "min_det"]
     items, idx, sops, sidx = [], [], [], []
     for k, c in enumerate(cases):
         r0 = impl_res[hashseeds[0]].get(c["id"]) or {}
